@@ -107,6 +107,52 @@ def run_ir(R, name):
     R.sample({"config": name, "step_eqns": len(j_step.jaxpr.eqns), "reset_eqns": len(j_reset.jaxpr.eqns)})
 
 
+def run_ctor_args(R):
+    """'calling on a fresh instance with the same configuration gives the same result and never modifies the arguments', for the
+    constructors that take MUTABLE configuration objects (arrays, lists): building an instance must leave the caller's object
+    untouched, and a second instance built from the same object must be the same program with the same constants."""
+    import copy
+    from jumanji import environments as E
+    from jumanji.environments.logic.sudoku import data as sd
+    from jumanji.environments.logic.sudoku.generator import DatabaseGenerator
+    from jumanji.environments.routing.pac_man.generator import AsciiGenerator
+    import os
+    db8 = np.load(os.path.join(os.path.dirname(sd.__file__), sd.DATABASES["very-easy"]))[:3]
+    cases = []
+    for dt in (np.int8, np.int32, np.int64, np.uint8):
+        cases.append((f"Sudoku DatabaseGenerator(database: numpy {np.dtype(dt).name}[3,9,9])", np.array(db8, dtype=dt),
+                      lambda a: E.Sudoku(generator=DatabaseGenerator(a)), lambda a: a.copy(), lambda a, b: np.array_equal(a, b) and a.dtype == b.dtype))
+    cases.append(("Sudoku DatabaseGenerator(database: nested python list)", np.array(db8).tolist(), lambda a: E.Sudoku(generator=DatabaseGenerator(a)),
+                  copy.deepcopy, lambda a, b: a == b))
+    cases.append(("PacMan AsciiGenerator(maze: list of str)", list(configs.PACMAN_MAZE), lambda a: E.PacMan(generator=AsciiGenerator(a)), list, lambda a, b: a == b))
+    key = jax.random.PRNGKey(3)
+    R.bound(cases=[c[0] for c in cases], facts="constructor + reset + step traced twice from ONE configuration object")
+    for label, arg, build, snap, same in cases:
+        before = snap(arg)
+        try:
+            e1 = build(arg)
+            s1, t1 = jax.jit(e1.reset)(key)
+            o1 = jax.jit(e1.step)(s1, e1.action_spec.generate_value())
+            ok_arg1 = same(arg, before)
+            e2 = build(arg)
+            s2, t2 = jax.jit(e2.reset)(key)
+            o2 = jax.jit(e2.step)(s2, e2.action_spec.generate_value())
+            ok_arg2 = same(arg, before)
+            st_shape, _ = jax.eval_shape(e1.reset, key)
+            f1 = jaxpr_fingerprint(jax.make_jaxpr(e1.reset)(key))
+            f2 = jaxpr_fingerprint(jax.make_jaxpr(e2.reset)(key))
+        except Exception as e:  # noqa
+            R.structural(f"{label}: constructs, resets and steps", False, {"error": repr(e)[:300]})
+            continue
+        R.structural(f"{label}: the caller's configuration object is left untouched by construction, reset and step", ok_arg1 and ok_arg2,
+                     {"case": label, "after_first_instance_unchanged": ok_arg1, "after_second_instance_unchanged": ok_arg2})
+        R.structural(f"{label}: a second instance built from the same object is the same reset program (equations and constants)", f1 == f2, {"case": label})
+        R.structural(f"{label}: both instances give bitwise the same reset and step for PRNGKey(3)", WC.np_tree_equal((s1, t1), (s2, t2)) and WC.np_tree_equal(o1, o2),
+                     {"case": label, "differs": WC.diff_fields((s1, t1), (s2, t2)) + WC.diff_fields(o1, o2)})
+        R.validated += 4
+    R.sample({"cases": [c[0] for c in cases]})
+
+
 def run_transform(R, name, B, L):
     """vmap lanes == per-call; scan == composition; jit == plain, on shared symbolic inputs"""
     WC.set_mode(name)
@@ -198,6 +244,7 @@ JOBTIMEOUT = {"quick": 600, "thorough": 3600}
 
 def jobs(tier, seed):
     js = [(f"{n}/ir", "checks.C02", "run_ir", {"name": n}) for n in configs.ALL]
+    js.append(("constructor-arguments", "checks.C02", "run_ctor_args", {}))
     for n in TRANSFORM_ENVS + (THOROUGH_EXTRA if tier == "thorough" else []):
         js.append((f"{n}/vmap2-scan2", "checks.C02", "run_transform", {"name": n, "B": 2, "L": 2}))
     for n in (TRANSFORM_ENVS[:3] if tier == "quick" else TRANSFORM_ENVS[:12]):
